@@ -449,4 +449,5 @@ def run(tier, seed, replay):
         nontrivial=nontrivial,
         extra=e2e,
         rule="seeded random selections: 1-2 files x 0..5 ranges each over lines 0..17 (20% possibly empty lo>hi, singletons, overlapping, adjacent), stdin / existing / non-canonicalisable file names, 6 query ranges + 4 range pairs per case; non-trivial = queried file has >= 2 ranges; distinct by hash",
+        ties=["C17"],
     )
